@@ -5,6 +5,7 @@ import random
 from fractions import Fraction
 
 from vmon import gens as G
+from vmon.gens import THOROUGH_SCALE as TS
 from vmon import oracles as O
 
 PID = "C06"
@@ -288,7 +289,7 @@ def generate(tier, seed):
         for r in range(3 if thorough else 2):
             yield "expect", {"N": N1, "N2": N2, "K": 3, "p": _rand_p(rng, 3), "q": _rand_p(rng, 3)}, True
     # large random vectors
-    for i in range(400 if thorough else 40):
+    for i in range(400 * TS if thorough else 40):
         K = rng.randint(1, 30)
         scale = rng.choice([10, 1000, 30000])
         n = [rng.randint(0, scale) for _ in range(K)]
@@ -296,7 +297,7 @@ def generate(tier, seed):
             n[0] += 4
         yield "vec", {"n": n}, i < 15
     cells = ["A", "B", "AB", "C"]
-    for i in range(150 if thorough else 16):
+    for i in range(150 * TS if thorough else 16):
         nr = rng.randint(4, 30)
         rows = [[rng.choice(cells), rng.choice(cells)] for _ in range(nr)]
         rows[1] = list(rows[0])
